@@ -26,6 +26,24 @@ def cyc_world(L, P, sib):
     return World("cyc-L%d-P%d-%s" % (L, P, "sib" if sib else "nosib"), {"s": ["0", "1"]}, rules, targets, targets)
 
 
+def oob_cycle_world():
+    """a cycle that only closes after an edit, through a checksummed member (reached by the out-of-band path)"""
+    return World("cyc-oob", {"s": ["0", "1"]},
+                 {"t.do": [S(deps=["d"])],
+                  "d.do": [S(kind="csum", deps=["s"], out="file"), S(kind="csum", deps=["t"], out="file", tag="cyclic")],
+                  "p.do": [S(deps=["t"])]},
+                 ["t", "d", "p"], ["t", "p"])
+
+
+def oob_histories():
+    hs = []
+    for entry in ("t", "p", "d"):
+        for cmd in ("ifchange", "redo"):
+            hs.append([["ifchange", ["p"]], ["dovar", "d.do", 1], [cmd, [entry], {}]])
+            hs.append([["ifchange", ["p"]], ["dovar", "d.do", 1], [cmd, [entry], {}], [cmd, [entry], {}]])
+    return hs
+
+
 def all_worlds(maxL=4, maxP=2):
     out = {}
     for L in range(1, maxL + 1):
@@ -47,6 +65,8 @@ def step_check(proj, i, obs):
     m = proj.model
     opts = op[2] if len(op) > 2 else {}
     entries = [t for t in op[1] if t != "sib"]
+    if proj.w.name == "cyc-oob" and m.variant.get("d.do") == 0:
+        return oracles.check_exit(proj, obs)    # the graph is still acyclic here
     out.append(e1prop.stat("commands-entering-a-cycle"))
     if obs["rc"] == -999:
         return out   # watchdog already reported by the explorer as a violation of termination
@@ -122,6 +142,7 @@ def e2_oracle(scn, res):
 def main(tier):
     W = all_worlds(4 if tier == "thorough" else 3, 2 if tier == "thorough" else 1)
     plan = [(w, histories(w), 0) for w in W.values()]
+    plan.append((oob_cycle_world(), oob_histories(), 0))
     rc1 = e1prop.run_property(
         PID, tier, plan, "rv.props.c12", explore_opts={"all_steps": True},
         rule="generated cyclic worlds: cycle length L in 1..4 (quick 1..3), acyclic prefix of length 0..2 (quick 0..1), with/without an "
@@ -149,6 +170,7 @@ def replay(path):
         sc = {s["name"]: s for s, _ in e2_scenarios("thorough")}
         return e2prop.replay(PID, sc, e2_oracle, path)
     W = all_worlds()
+    W["cyc-oob"] = oob_cycle_world()
     bindir = common.build_subject()
     key, viols, summ = replay_history(W[doc["world"]], doc["history"], step_check, bindir=bindir)
     common.cleanup_scratch()
